@@ -19,6 +19,11 @@ func (k msgServer) StoreSignature(goCtx context.Context, msg *types.MsgStoreSign
 	var signatureJSON = msg.SignatureJSON
 	var err error
 
+	// the store rejects empty keys by panicking
+	if len(msg.StorageKey) == 0 {
+		return nil, sdkerrors.Wrap(sdkerrors.ErrInvalidRequest, "storage key cannot be empty")
+	}
+
 	txHash := sha256.Sum256(ctx.TxBytes())
 	txId := hex.EncodeToString(txHash[:])
 
